@@ -1,6 +1,6 @@
 (* C06 - publish only after durable; remove only after the replacement is durable.  Statements only. *)
 From Coq Require Import List ZArith NArith.
-From DOS Require Import Generated Base Store StoreProofs StoreLemmas Programs ProgramsProofs.
+From DOS Require Import Generated Base Store StoreProofs StoreLemmas Programs ProgramsProofs PackProofs MaintProofs.
 Import ListNotations.
 
 Section C06.
@@ -25,6 +25,29 @@ Proof.
   intros w l n chunks m HI HP.
   destruct (add_loose_crash_safe H inflate H_inj w l n chunks m HI) as (_ & _ & C). exact (C HP).
 Qed.
+
+(* (2b) pack_all_loose with do_fsync = true (the default): at EVERY crash point the power-loss image satisfies the invariant and
+   keeps every stored object - the index rows are committed only after the appended bytes were flushed and fsynced, and the
+   loose files are unlinked only after that commit *)
+Theorem C06_pack_power_safe : forall w l id objs clean m,
+  Inv H inflate w -> Inv H inflate (power_loss w) -> pending l = [] ->
+  Forall (obj_ok inflate w) objs -> NoDup (map okey objs) -> (forall o, In o objs -> ~ In (okey o) (map rkey (db w))) ->
+  let w' := power_loss (crash (run_events (w, l) (firstn m (p_pack_one w id objs true clean)))) in
+  Inv H inflate w' /\ (forall k c, stored inflate (power_loss w) k = Some c -> stored inflate w' k = Some c).
+Proof.
+  intros w l id objs clean m A P B C D E.
+  destruct (pack_one_crash_safe H inflate H_inj w l id objs true clean m A B C D E) as (_ & _ & Z). exact (Z eq_refl P).
+Qed.
+
+(* (2c) clean_storage removes a loose file only when its key is indexed - and index rows only exist on top of durable bytes *)
+Theorem C06_clean_power_safe : forall w l vacuum order m,
+  Inv H inflate w -> Inv H inflate (power_loss w) -> pending l = [] ->
+  let w' := power_loss (crash (run_events (w, l) (firstn m (p_clean w vacuum order)))) in
+  Inv H inflate w' /\ (forall k c, stored inflate (power_loss w) k = Some c -> stored inflate w' k = Some c).
+Proof.
+  intros w l vacuum order m A P B.
+  destruct (clean_crash_safe H inflate H_inj w l true vacuum order m A B) as (_ & _ & Z). exact (Z eq_refl P).
+Qed.
 End C06.
 
 (* (3) the defaults the property speaks of, from the AST of the current source: packing syncs by default *)
@@ -33,4 +56,6 @@ Theorem C06_default_fsync_settings :
 Proof. repeat split; reflexivity. Qed.
 Print Assumptions C06_monitor_sound.
 Print Assumptions C06_add_loose_power_safe.
+Print Assumptions C06_pack_power_safe.
+Print Assumptions C06_clean_power_safe.
 Print Assumptions C06_default_fsync_settings.
